@@ -41,11 +41,53 @@ KEYWORDS = ("SOLUTION_MASTER_SPECIES", "SOLUTION_SPECIES", "PHASES", "EXCHANGE_M
 _phase_cache = {}
 
 
+_info_cache = {}
+
+
+def db_info(dbname):
+    """masters (element names of SOLUTION_MASTER_SPECIES), names of all PHASES (gases included), whether the database has
+    the exchanger X and the Hfo surface, and how total carbonate / sulfate / nitrate are written in it."""
+    path = os.path.join(vlib.DB, dbname)
+    if path in _info_cache:
+        return _info_cache[path]
+    masters, names = set(), set()
+    block = None
+    has_x = has_hfo = False
+    prev_name = None
+    for raw in open(path, errors="replace"):
+        s = raw.split("#")[0].strip()
+        if not s:
+            continue
+        first = s.split()[0]
+        if first.upper() in KEYWORDS:
+            block = first.upper()
+            continue
+        if block == "SOLUTION_MASTER_SPECIES":
+            masters.add(first)
+        elif block == "EXCHANGE_MASTER_SPECIES" and first == "X":
+            has_x = True
+        elif block == "SURFACE_MASTER_SPECIES" and first == "Hfo_w":
+            has_hfo = True
+        elif block == "PHASES" and "=" not in s and not first.startswith("-") and first.lower() not in OPTION_WORDS:
+            names.add(first)
+    emap = {}
+    for el, v in (("C", 4), ("S", 6), ("N", 5)):
+        for cand in ("%s(%d)" % (el, v), "%s(+%d)" % (el, v)):
+            if cand in masters:
+                emap[el] = cand
+                break
+    info = {"masters": masters, "names": names, "has_x": has_x, "has_hfo": has_hfo, "emap": emap,
+            "allowed": set(a for a in ALLOWED if a in masters)}
+    _info_cache[path] = info
+    return info
+
+
 def db_phases(dbname):
-    """[(name, set(elements))] for the non-gas phases of a database whose elements are all in ALLOWED."""
+    """[(name, set(elements))] for the non-gas phases of a database whose elements are all in ALLOWED (and in the database)."""
     path = os.path.join(vlib.DB, dbname)
     if path in _phase_cache:
         return _phase_cache[path]
+    allowed = db_info(dbname)["allowed"]
     out = []
     inblock = False
     name = None
@@ -74,7 +116,7 @@ def db_phases(dbname):
                     continue
                 els.update(re.findall(r"[A-Z][a-z]?", sp))
             els -= {"H", "O"}
-            if not name.endswith("(g)") and els and els <= set(ALLOWED) and "(g)" not in name:
+            if not name.endswith("(g)") and els and els <= allowed and "(g)" not in name:
                 out.append((name, els))
             name = None
             continue
@@ -104,7 +146,11 @@ def fmt(x):
 
 def gen_case(rng, idx):
     """One random input. Returns dict(db, text, meta) where meta tells the checker what was asked for."""
-    db = "phreeqc.dat" if rng.random() < 0.7 else "wateq4f.dat"
+    # all activity models: ion association (phreeqc.dat, wateq4f.dat), Pitzer (pitzer.dat), SIT (sit.dat), LLNL (llnl.dat)
+    r = rng.random()
+    db = "phreeqc.dat" if r < 0.42 else ("wateq4f.dat" if r < 0.55 else ("pitzer.dat" if r < 0.73 else ("sit.dat" if r < 0.87 else "llnl.dat")))
+    info = db_info(db)
+    emap = info["emap"]
     phases = db_phases(db)
     common = [p for p in phases if p[0] in ("Calcite", "Aragonite", "Dolomite", "Gypsum", "Anhydrite", "Quartz", "Chalcedony",
                                             "SiO2(a)", "Gibbsite", "Kaolinite", "Siderite", "Rhodochrosite", "Strontianite",
@@ -118,7 +164,7 @@ def gen_case(rng, idx):
     # solid solution
     ss = None
     if rng.random() < 0.3:
-        fam = rng.choice(SS_FAMILIES[db])
+        fam = rng.choice(SS_FAMILIES.get(db, SS_FAMILIES["phreeqc.dat"]))
         k = 2 if rng.random() < 0.6 else min(3, len(fam))
         comps = rng.sample(fam, k)
         names = {p[0]: p for p in phases}
@@ -143,7 +189,10 @@ def gen_case(rng, idx):
     # solution
     temp = rng.choice([25.0, 25.0, round(rng.uniform(5, 60), 1)])
     lines = ["SOLUTION 1", " temp %s" % fmt(temp), " pH %s" % fmt(round(rng.uniform(5.0, 9.0), 2)), " pe %s" % fmt(rng.choice([4.0, 4.0, 8.0, 0.0, 12.0])),
-             " units mmol/kgw", " Na %s" % fmt(round(logu(rng, 1, 100), 4)), " Cl %s charge" % fmt(round(logu(rng, 1, 100), 4))]
+             " units mmol/kgw"]
+    brine = db in ("pitzer.dat", "sit.dat") and rng.random() < 0.4
+    lines += [" Na %s" % fmt(round(logu(rng, 100, 4000) if brine else logu(rng, 1, 100), 4)),
+              " Cl %s charge" % fmt(round(logu(rng, 100, 4000) if brine else logu(rng, 1, 100), 4))]
     insol = set()
     ss_els = set()
     if ss:
@@ -152,16 +201,16 @@ def gen_case(rng, idx):
     for el in sorted(elements - {"Na", "Cl"}):
         if el in ss_els or rng.random() < 0.7:
             insol.add(el)
-            lines.append(" %s %s" % (ELEM_MAP.get(el, el), fmt(round(logu(rng, 0.005, 10), 5))))
+            lines.append(" %s %s" % (emap.get(el, el), fmt(round(logu(rng, 0.005, 10), 5))))
     for el in ("Ca", "C", "Mg", "K", "S"):
-        if el not in insol and el not in elements and rng.random() < 0.3:
-            lines.append(" %s %s" % (ELEM_MAP.get(el, el), fmt(round(logu(rng, 0.01, 5), 5))))
+        if el in info["allowed"] and el not in insol and el not in elements and rng.random() < 0.3:
+            lines.append(" %s %s" % (emap.get(el, el), fmt(round(logu(rng, 0.01, 5), 5))))
     # equilibrium phases
     pps = []
     rel_ex = rel_sf = None
-    if rng.random() < 0.12:
+    if rng.random() < 0.12 and info["has_x"]:
         rel_ex = rng.choice(sorted(chosen))
-    if rng.random() < 0.12:
+    if rng.random() < 0.12 and info["has_hfo"]:
         rel_sf = rng.choice(sorted(chosen))
     lines.append("EQUILIBRIUM_PHASES 1")
     for nm in sorted(chosen):
@@ -183,7 +232,8 @@ def gen_case(rng, idx):
         pps.append({"name": nm, "target": target, "init": init, "kind": kind, "force": force})
     if rng.random() < 0.35:
         g = rng.choice([("CO2(g)", round(rng.uniform(-3.5, -1.0), 2)), ("O2(g)", round(rng.uniform(-20, -0.7), 2))])
-        lines.append(" %s %s 10" % (g[0], fmt(g[1])))
+        if g[0] in info["names"]:
+            lines.append(" %s %s 10" % (g[0], fmt(g[1])))
     # exchanger
     exch = None
     r = rng.random()
@@ -191,7 +241,7 @@ def gen_case(rng, idx):
         per = float(fmt(logu(rng, 1e-3, 0.2)))
         lines += ["EXCHANGE 1", " X %s equilibrium_phase %s" % (rel_ex, fmt(per)), " -equilibrate 1"]
         exch = {"sites": {"X": None}, "mode": "related", "related": {"X": (rel_ex, per)}}
-    elif r < 0.35:
+    elif r < 0.35 and info["has_x"]:
         lines.append("EXCHANGE 1")
         if rng.random() < 0.5:
             tot = float(fmt(logu(rng, 1e-4, 0.5)))
@@ -216,7 +266,7 @@ def gen_case(rng, idx):
         if edl == "no_edl":
             lines.append(" -no_edl")
         surf = {"sites": {"Hfo_w": None, "Hfo_s": None}, "mode": "related", "edl": edl, "related": {"Hfo_w": (rel_sf, perw), "Hfo_s": (rel_sf, pers)}}
-    elif rng.random() < 0.3:
+    elif rng.random() < 0.3 and info["has_hfo"]:
         lines.append("SURFACE 1")
         w = float(fmt(logu(rng, 1e-5, 1e-2)))
         s = float(fmt(w * rng.choice([0.025, 0.05, 0.1])))
@@ -436,6 +486,23 @@ def corpus():
     for k in (2, 3):
         text += "USE solution 1\nUSE equilibrium_phases 1\nUSE solid_solutions %d\nSAVE solid_solutions %d\nDUMP\n -solid_solutions %d\nEND\n" % (k, k, k)
     out.append({"id": "corpus-ss-redefined", "db": "phreeqc.dat", "text": text, "flags": ["dump"], "meta": meta})
+    # restrictions under the other activity models (model() dispatches to model_pz / model_sit): an undersaturated
+    # precipitate_only mineral must keep its amount, a dissolve_only one may dissolve, an unrestricted one equilibrates
+    for dbn in ("pitzer.dat", "sit.dat", "llnl.dat"):
+        pr = [_pp("Gypsum", 0, 0.5, "dissolve_only"), _pp("Halite", 0, 1, "precipitate_only"), _pp("Sylvite", 0, 0.2, "precipitate_only")]
+        if dbn == "llnl.dat":
+            pr.append(_pp("Calcite", 0.1, 0.05))
+        else:
+            pr.append(_pp("Calcite", 0.1, 0.05, force=True))
+        pr.sort(key=lambda p: p["name"])
+        text = "SOLUTION 1\n temp 25\n pH 7\n units mol/kgw\n Na 0.1\n Cl 0.1 charge\n K 0.01\n Ca 0.001\nEQUILIBRIUM_PHASES 1\n"
+        for p in pr:
+            text += " %s %r %r%s\n" % (p["name"], p["target"], p["init"], "" if p["kind"] == "normal" else " " + p["kind"])
+            if p["force"]:
+                text += "  -force_equality true\n"
+        meta = {"pps": pr, "exch": None, "surf": None, "ss": None, "hp": False, "temp": 25.0}
+        text += _punch(pr)
+        out.append({"id": "corpus-restrictions-" + dbn, "db": dbn, "text": text, "flags": [], "meta": meta})
     # finding F-C03-1: precipitate_only phase next to a diffuse-layer surface (minimised from seed 0)
     pps = [_pp("Goethite", 0.75, 0.0005, "precipitate_only")]
     text = ("SOLUTION 1\n Cl 10 charge\n Fe 0.5\nEQUILIBRIUM_PHASES 1\n Goethite 0.75 0.0005 precipitate_only\n"
@@ -653,7 +720,7 @@ def py_verdict(items):
             else:
                 ok = ok and m >= i and s <= t + 1e-6 and (m <= i or s >= t - 1e-6)
             if not ok:
-                bad.append(("pp:" + kind, "phase %s (%s): target SI %r, initial %r mol -> %r mol at SI %r" % (nm, kind, t, i, m, s)))
+                bad.append(("pp:" + kind, "phase %s (%s): target SI %r, initial %r mol -> %r mol at SI %r" % (nm, kind, t, i, m, s), it))
         elif it[0] in ("exch", "surf"):
             _, nm, d, f = it
             if abs(f - d) > 1e-8 * d:
@@ -701,8 +768,11 @@ def finding_key(job, meta, bad):
     """Stable identity of a failure.  One class is recognised by its configuration and signature (see notes/C03.md,
     finding F-C03-1); everything else is keyed by the input itself."""
     surf = meta.get("surf")
-    if surf and surf.get("edl") in ("diffuse", "donnan") and bad and all(b[0] == "pp:precipitate_only" for b in bad):
-        return F1_KEY
+    if surf and surf.get("edl") in ("diffuse", "donnan") and bad and all(b[0] == "pp:precipitate_only" and len(b) > 2 for b in bad):
+        # signature of F-C03-1 only: the phase PRECIPITATED in this step (amount above the initial one, so the restriction itself
+        # is respected) and ends UNDERSATURATED; a precipitate_only phase that lost material is a different failure
+        if all(b[2][5] > b[2][4] and b[2][6] < b[2][3] for b in bad):
+            return F1_KEY
     return "input:" + hashlib.sha256((job["db"] + "\n" + job["text"]).encode()).hexdigest()[:16]
 
 
